@@ -104,6 +104,8 @@ def run_case(desc):
     K = desc["K"]
     classes, ml, dt = _classes(desc["ckind"], K)
     n = int(rng.randint(2, 15))
+    if name == "mixture_default":
+        n = max(n, K)      # the default mixture has one component per class; scikit-learn needs n_samples >= n_components
     d = int(rng.randint(1, 4))
     regime = desc["regime"]
     if regime == "separated":
@@ -138,6 +140,9 @@ def run_case(desc):
         cm = np.round(rng.rand(K, K) * 4, 1)
         if rng.rand() < 0.5:          # strongly asymmetric costs: the cheapest decision is often not the most probable class
             cm[rng.randint(K)] *= 10.0
+        if (desc["seed"] >> 16) % 4 == 0:
+            # expected costs that differ in the sixth digit only (no labels -> uniform P): still a unique cheapest class
+            cm = np.ones((K, K)) + 4e-6 * rng.permutation(K)[None, :]
         np.fill_diagonal(cm, 0.0)
     sw = None
     if desc["weights"]:
@@ -191,6 +196,10 @@ def run_case(desc):
         add("step-budget-exceeded", "fit: %s" % ex)
         path = None
     except Exception as ex:
+        if name == "mixture_default" and ("ill-defined empirical covariance" in str(ex) or "n_components" in str(ex)):
+            # scikit-learn's default Gaussian mixture (one component per class, reg_covar 1e-6) cannot be estimated from
+            # collapsed / too few samples: a requirement of the third-party model, not a verdict
+            return {"status": "skip", "skip_reason": "default mixture model not estimable from this training set (scikit-learn)"}
         add("fit-raises:%s" % type(ex).__name__, "%s: %s" % (ctx, str(ex)[:200]))
         path = None
     finally:
